@@ -622,6 +622,11 @@ def check_signature_rules(chk, check):
                     if not (sigsrc[0] == "call" and sigsrc[2] and sigsrc[2][0] == ("attr", SELF, "ctor")):
                         chk.bad(rule, name, "the signature is taken from %s, not from the template's constructor" % show(strip_sites(sigsrc)), node=check.node, stmt="sig-source", input=label)
                         ok = False
+                    elif len(sigsrc[2]) != 1 or any(not (kk == "follow_wrapped" and vv == ("const", True)) for kk, vv in sigsrc[3]):
+                        # the signature a caller sees is the one inspect reports by default: options (follow_wrapped=False, ...) make
+                        # the check look at something else, e.g. (*args, **kwargs) of a functools.wraps wrapper -- a vacuous check
+                        chk.bad(rule, name, "the constructor's signature is taken with options (%s): the check is made against another signature than the one the constructor is called with (a constructor behind a functools.wraps decorator is then checked against (*args, **kwargs))" % show(strip_sites(sigsrc)), node=check.node, stmt="sig-options", input=label)
+                        ok = False
                     pos = list(ct[2])
                     flat = []
                     for a in pos:
@@ -837,7 +842,36 @@ def check_fold(chk, name, fi, o, t, label):
     return True
 
 
+def construct_failures_pass(chk):
+    """O4.9: binding an element calls its constructor exactly like the hand-written nesting does -- an exception the constructor
+    raises reaches the caller unchanged: no handler around a construct / ctor call or a >> binding in the template module
+    swallows or translates it"""
+    prog = chk.program
+    rule = "O4.9"
+    mod = prog.cls(PARTIAL).module
+    n = 0
+    ok = True
+    for t in ast.walk(mod.tree):
+        if not isinstance(t, ast.Try):
+            continue
+        builds = [c for st in t.body for c in ast.walk(st) if (isinstance(c, ast.Call) and isinstance(c.func, ast.Attribute) and c.func.attr in ("__construct__", "ctor")) or (isinstance(c, ast.BinOp) and isinstance(c.op, ast.RShift))]
+        if not builds:
+            continue
+        n += 1
+        chk.count()
+        for h in t.handlers:
+            raises = [r for st in h.body for r in ast.walk(st) if isinstance(r, ast.Raise)]
+            same = raises and all(r.exc is None or (isinstance(r.exc, ast.Name) and r.exc.id == h.name and r.cause is None) for r in raises) and isinstance(h.body[-1], ast.Raise)
+            if not same:
+                fi = prog.enclosing_function(mod, t)
+                chk.bad(rule, fi.qual if fi else mod.name, "a handler (`except %s`) around %s does not pass the constructor's own exception on unchanged: binding a chain fails differently from nesting the constructors by hand (e.g. an AssertionError / ValueError of an element surfaces as another type or not at all)" % (util.unparse(h.type) if h.type else "<bare>", util.unparse(builds[0])[:50]), node=h, stmt="construct-failure-translated")
+                ok = False
+    if ok:
+        chk.ok(rule, mod.name, "%d try blocks around a construct call / >> binding, each handler re-raises the same exception" % n)
+
+
 def run(chk):
+    chk.guard("O4.9", PARTIAL, construct_failures_pass, chk)
     chk.guard("O4.1", PARTIAL, partial_core, chk)
     chk.guard("O4.3", "<template classes>", signature_visibility, chk)
     chk.guard("O4.4", "<.s factories>", leaf_flags, chk)
